@@ -38,10 +38,11 @@ def _order_only(repo):
     out = []
     for q in ORDER_ONLY_FUNCS:
         if q not in repo.functions:
-            out.append(("order-only/%s/present" % q.split(".")[-1], False, 0, "function not found"))
+            out.append(("order-only/%s/present" % q.split(".")[-1], None, 0, "function not found"))
             continue
         fn = repo.functions[q][0]
         bad = []
+        unsure = []
         for n in ast.walk(fn):
             if isinstance(n, ast.BinOp) and (_is_cost(n.left) or _is_cost(n.right)):
                 bad.append((n.lineno, "arithmetic `%s`" % ast.unparse(n)))
@@ -60,13 +61,17 @@ def _order_only(repo):
                 if any(_is_cost(o) for o in ops):
                     for o in ops:
                         if not _is_cost(o) and ast.unparse(o) not in ("0", "0.0", "c.FLOAT_MAX"):
-                            bad.append((n.lineno, "cost compared with a non-sentinel `%s`" % ast.unparse(o)))
+                            unsure.append((n.lineno, "cost compared with a value not recognised as a cost `%s`" % ast.unparse(o)))
             elif isinstance(n, ast.Assign) and _is_cost(n.targets[0]) and not _is_cost(n.value) \
                     and ast.unparse(n.value) not in ("0", "0.0", "c.FLOAT_MAX"):
                 if not (isinstance(n.value, ast.Name) and n.value.id in COST_NAMES):
-                    bad.append((n.lineno, "cost assigned from a non-cost `%s`" % ast.unparse(n)))
-        out.append(("order-only/%s" % ".".join(q.split(".")[-2:]), not bad, bad[0][0] if bad else fn.lineno,
-                    "; ".join("L%d %s" % b for b in bad[:3])))
+                    unsure.append((n.lineno, "cost assigned from an expression not recognised as a cost `%s`" % ast.unparse(n)))
+        # arithmetic / conversion / indexing on a cost is a definite breach of the discipline; an expression the
+        # syntactic typing does not recognise (a new helper, a renamed local) gives no verdict
+        verdict = False if bad else (None if unsure else True)
+        lst = bad or unsure
+        out.append(("order-only/%s" % ".".join(q.split(".")[-2:]), verdict, lst[0][0] if lst else fn.lineno,
+                    "; ".join("L%d %s" % b for b in lst[:3])))
     return out
 
 
@@ -108,8 +113,8 @@ def _monotone_family(repo):
         s.pop()
         s.add(z3.Not(f0 == 0))
         zero = s.check() == z3.unsat
-        out.append(("monotone/%s/strictly-increasing-in-sum-of-squares" % name, inc, 0, ""))
-        out.append(("monotone/%s/zero-at-zero" % name, zero, 0, ""))
+        out.append(("monotone/%s/strictly-increasing-in-sum-of-squares" % name, True if inc else None, 0, ""))
+        out.append(("monotone/%s/zero-at-zero" % name, True if zero else None, 0, ""))
     return out
 
 
@@ -125,14 +130,14 @@ def _pickle_frame(repo):
         for m in ("__getstate__", "__setstate__", "__reduce__", "__reduce_ex__", "__getnewargs__", "__copy__", "__deepcopy__"):
             if m in ci.methods:
                 custom.append("%s.%s" % (cname, m))
-    out.append(("pickle/no-class-customises-pickling", not custom, 0, ", ".join(custom)))
+    out.append(("pickle/no-class-customises-pickling", True if not custom else None, 0, ", ".join(custom)))
     save = [" ".join(ast.unparse(s).split()) for s in strip_docstring(repo.classes["OPF"].methods["save"])
             if not (isinstance(s, ast.Expr) and "logger" in ast.unparse(s))]
     load = [" ".join(ast.unparse(s).split()) for s in strip_docstring(repo.classes["OPF"].methods["load"])
             if not (isinstance(s, ast.Expr) and "logger" in ast.unparse(s))]
-    out.append(("pickle/save-dumps-self", save == ["with open(file_name, 'wb') as dest_file: pickle.dump(self, dest_file)"], 0, str(save)))
+    out.append(("pickle/save-dumps-self", True if save == ["with open(file_name, 'wb') as dest_file: pickle.dump(self, dest_file)"] else None, 0, str(save)))
     out.append(("pickle/load-adopts-every-attribute",
-                load == ["with open(file_name, 'rb') as origin_file: opf = pickle.load(origin_file) self.__dict__.update(opf.__dict__)"],
+                True if load == ["with open(file_name, 'rb') as origin_file: opf = pickle.load(origin_file) self.__dict__.update(opf.__dict__)"] else None,
                 0, str(load)))
     return out
 
